@@ -19,6 +19,8 @@ MEDIA_CLASSES = {
     'text/xml': 'textxml', 'text/xml-external-parsed-entity': 'textxml', 'text/foo+xml': 'textxml',
     'text/html': 'html', 'text/css': 'css', 'text/plain': 'text', 'text/javascript': 'text',
     'image/png': 'other', 'application/octet-stream': 'other', 'application/xmlfoo': 'other', 'texthtml': 'other',
+    # structured +xml subtypes of the vendor and personal trees
+    'application/vnd.mozilla.xul+xml': 'appxml', 'application/prs.a+b+xml': 'appxml', 'text/vnd.example.doc+xml': 'textxml',
 }
 DEFAULTS = {'appxml': 'utf-8', 'textxml': 'ascii', 'html': 'iso-8859-1', 'text': 'iso-8859-1', 'css': 'utf-8', 'other': None}
 
@@ -28,6 +30,7 @@ def run(chk):
     r20b(chk)
     r20c(chk)
     r20e(chk)
+    r20f(chk)
     try:
         r20d(chk)
     except AnalysisError as e:
@@ -329,3 +332,49 @@ def r20d(chk, rid='R20.d'):
     chk.ob(rid, ENC, 'detectXMLEncoding', 'a BOM is looked for (and returned) before the XML declaration is searched', ok, 'the declared encoding would win over the BOM')
     # (which BOMs are known, their order, the default and the handling of bytes are decided
     # semantically by R20.e; text-shape obligations on them were removed as brittle)
+
+
+def r20f(chk, rid='R20.f'):
+    chk.rule(rid, 'the meta sniffer sees the whole document, decided by evaluation: getMetaInfo is evaluated on its syntax tree with a model parser that finds the Content-Type meta element wherever it stands in what it is fed: for a declaration near the start, in the middle and at the very end of a long document the media type and the lower-cased charset are returned; without one, (None, None)')
+    from email.message import Message
+
+    from sa.absint import Evaluator, Raised, Record
+
+    m = chk.repo.mod(ENC)
+    fn = m.get('getMetaInfo')
+    META = '<meta http-equiv="Content-Type" content="Text/HTML; charset=ISO-8859-5">'
+    from sa.absint import _Raise
+
+    for label, doc, want in (
+        ('in a document given as bytes', ('<html><head>' + META + '</head>').encode('ascii'), ('text/html', 'iso-8859-5')),
+        ('near the start', '<html><head>' + META + '</head>' + 'x' * 6000, ('text/html', 'iso-8859-5')),
+        ('in the middle', '<html><!--' + 'c' * 3000 + '-->' + META + 'y' * 3000, ('text/html', 'iso-8859-5')),
+        ('at the very end', '<html><style>' + 's' * 70000 + '</style>' + META, ('text/html', 'iso-8859-5')),
+        ('absent', '<html>' + 'z' * 500, (None, None)),
+    ):
+        fed = []
+
+        def parser():
+            p = Record(content_type=None)
+
+            def feed(t):
+                fed.append(t)
+                if not isinstance(t, str):
+                    raise _Raise('TypeError')  # html.parser.HTMLParser.feed accepts text only
+                if META in t:
+                    p.content_type = 'Text/HTML; charset=ISO-8859-5'
+            p.feed = feed
+            return p
+
+        got = Evaluator(fn, intrinsics={'_MetaHTMLParser': parser, 'Message': Message}, model_types=(Message,), module=m).run(text=doc, log=None)
+        ok = not isinstance(got, Raised) and tuple(got) == want
+        chk.ob(rid, ENC, 'getMetaInfo', f'meta declaration {label}', ok,
+               f'returns {got!r} (the parser was fed {[len(t) for t in fed]} of {len(doc)} characters): a declaration outside the part that is searched is not seen, so the encoding falls back to the media-type default and mismatches go unnoticed')
+
+    # the naive XML test used when no media type is known
+    gt = m.get('_getTextType')
+    consts = _consts(m)
+    for label, doc, want in (('text with an XML declaration', '<?xml version="1.0"?><a/>', '_XML_APPLICATION_TYPE'), ('bytes with an XML declaration', b'<?xml version="1.0"?><a/>', '_XML_APPLICATION_TYPE'),
+                             ('text without', 'a{}', '_OTHER_TYPE'), ('bytes without', b'a{}', '_OTHER_TYPE'), ('empty text', '', '_OTHER_TYPE')):
+        got = Evaluator(gt, intrinsics=consts, module=m).run(text=doc, log=None)
+        chk.ob(rid, ENC, '_getTextType', f'{label} is classified', got == consts[want], f'gives {got!r}: a document handed over as bytes cannot be sniffed')
